@@ -469,16 +469,20 @@ def purge (r : Repo) (id : Str) : Repo :=
 
 /-! ### reads (repo.rs:278-323, 374-433; fs.rs:298-317) -/
 
-/-- `get_object_file`: every admissible content path must exist; returns the digest(s) of the bytes -/
+/-- what a read of version `vn` of a committed object answers: every admissible content path must
+    exist; returns the digest(s) of the bytes -/
+def readObj (o : Obj) (vn : Nat) (p : LPath) : Except Err (List Digest) :=
+  match o.inv.contentPathsForLogicalPath p vn with
+  | .error e => .error e
+  | .ok cps =>
+    let ds := cps.map (fun cp => AL.get o.files cp)
+    if ds.any Option.isNone then .error .io else .ok (ds.filterMap (fun x => x)).eraseDups
+
+/-- `get_object_file` -/
 def getObjectFile (r : Repo) (id : Str) (vn : Option Nat) (p : LPath) : Except Err (List Digest) :=
   match AL.get r.main id with
   | none => .error .notFound
-  | some o =>
-    match o.inv.contentPathsForLogicalPath p (vn.getD o.inv.head.number) with
-    | .error e => .error e
-    | .ok cps =>
-      let ds := cps.map (fun cp => AL.get o.files cp)
-      if ds.any Option.isNone then .error .io else .ok (ds.filterMap (fun x => x)).eraseDups
+  | some o => readObj o (vn.getD o.inv.head.number) p
 
 /-- `get_staged_object_file` (after the fixes): a file with its own content path in the manifest is
     read from staging; any other content is located through the newest committed version that
